@@ -30,8 +30,9 @@ F32_EXACT = False  # when True a cast to float32 is visible as the uninterpreted
 
 # --------------------------------------------------------------------------- dtypes
 class DType:
-    def __init__(self, code):
+    def __init__(self, code, width=None):
         self.code = code
+        self.width = width  # fixed item width of a unicode / bytes array of concrete strings (None: unknown)
 
     @property
     def kind(self):
@@ -60,6 +61,7 @@ float64 = DType("f8")
 float32 = DType("f4")
 int64 = DType("i8")
 int_ = int64
+intp = int64
 bool_ = DType("b")
 str_ = DType("U")
 bytes_ = DType("S")
@@ -257,11 +259,12 @@ def _isnan1(x):
 class ndarray:
     __array_priority__ = 100
 
-    def __init__(self, buf, idx, shape, dtype):
+    def __init__(self, buf, idx, shape, dtype, uw=None):
         self.buf = buf
         self.idx = idx
         self.shape = tuple(int(s) for s in shape)
         self._dt = dtype
+        self.uw = uw
 
     @staticmethod
     def fresh(vals, shape, dtype):
@@ -269,11 +272,11 @@ class ndarray:
         shape = tuple(shape)
         if len(vals) != prod_(shape):
             raise ValueError("cannot build array of shape %s from %d values" % (shape, len(vals)))
-        return ndarray(vals, list(range(len(vals))), shape, dtype)
+        return ndarray(vals, list(range(len(vals))), shape, dtype, _width_of(vals) if dtype in ("U", "S") else None)
 
     @property
     def dtype(self):
-        return DType(self._dt)
+        return DType(self._dt, self.uw)
 
     @property
     def flat(self):
@@ -294,14 +297,26 @@ class ndarray:
         return self.shape[0]
 
     def copy(self):
-        return ndarray.fresh(self.flat, self.shape, self._dt)
+        r = ndarray.fresh(self.flat, self.shape, self._dt)
+        r.uw = self.uw
+        return r
 
     def astype(self, dt, copy=True):
         d = _dt(dt)
-        return ndarray.fresh([_cast(v, d) for v in self.flat], self.shape, d)
+        if not copy and d == self._dt and not (isinstance(dt, DType) and dt.width not in (None, self.uw)):
+            return self  # numpy returns the very same array: callers that write into it write into the original
+        vals = [_cast(v, d) for v in self.flat]
+        w = dt.width if isinstance(dt, DType) and d in ("U", "S") else None
+        if w is not None:
+            # numpy's fixed-width unicode: longer (concrete) strings are silently truncated
+            vals = [_trunc(v, w) for v in vals]
+        r = ndarray.fresh(vals, self.shape, d)
+        if w is not None:
+            r.uw = w
+        return r
 
     def view(self):
-        return ndarray(self.buf, list(self.idx), self.shape, self._dt)
+        return ndarray(self.buf, list(self.idx), self.shape, self._dt, self.uw)
 
     def tolist(self):
         def rec(vals, shape):
@@ -471,7 +486,7 @@ class ndarray:
         elems, shape, is_view = self._gather(key)
         located = [self._locate(spec) for spec in elems]
         if is_view and _ball(len(a) == 1 for a in located):
-            r = ndarray(self.buf, [self.idx[a[0][1]] for a in located], shape, self._dt)
+            r = ndarray(self.buf, [self.idx[a[0][1]] for a in located], shape, self._dt, self.uw)
         else:
             vals = []
             for alts in located:
@@ -480,6 +495,8 @@ class ndarray:
                     v = ite(SymBool(c) if c is not True else True, self.buf[self.idx[off]], v)
                 vals.append(v)
             r = ndarray.fresh(vals, shape, self._dt)
+            if self.uw is not None:
+                r.uw = self.uw
         if shape == ():
             return _box(r.flat[0])
         return r
@@ -498,6 +515,8 @@ class ndarray:
         for spec, v in zip(elems, vals):
             alts = self._locate(spec)
             cv = _cast(v, self._dt)
+            if self.uw is not None and self._dt in ("U", "S"):
+                cv = _trunc(cv, self.uw)
             if len(alts) == 1:
                 self.buf[self.idx[alts[0][1]]] = cv
             else:
@@ -589,7 +608,7 @@ class ndarray:
             raise ModelGap("transpose of ndim>2")
         n, m = self.shape
         idx = [self.idx[i * m + j] for j in range(m) for i in range(n)]
-        return ndarray(self.buf, idx, (m, n), self._dt)
+        return ndarray(self.buf, idx, (m, n), self._dt, self.uw)
 
     def transpose(self):
         return self.T
@@ -604,7 +623,7 @@ class ndarray:
             shape[i] = self.size // rest if rest else 0
         if prod_(shape) != self.size:
             raise ValueError("cannot reshape array of size %d into shape %s" % (self.size, tuple(shape)))
-        return ndarray(self.buf, self.idx, tuple(shape), self._dt)
+        return ndarray(self.buf, self.idx, tuple(shape), self._dt, self.uw)
 
     def flatten(self):
         return ndarray.fresh(self.flat, (self.size,), self._dt)
@@ -635,6 +654,22 @@ class ndarray:
 
     def __repr__(self):
         return "symarray(shape=%s, dtype=%s)" % (self.shape, self._dt)
+
+
+def _width_of(vals):
+    """item width numpy would choose for these strings (None when a symbolic name is present: lengths unknown)"""
+    w = 1
+    for v in vals:
+        if isinstance(v, SymStr) or not isinstance(v, (str, bytes)):
+            return None
+        w = _bmax(w, len(v))
+    return w
+
+
+def _trunc(v, w):
+    if isinstance(v, (str, bytes)) and not isinstance(v, SymStr) and len(v) > w:
+        return v[:w]
+    return v
 
 
 def _squeeze_leading(a, nd):
@@ -793,7 +828,7 @@ def broadcast_to(a, shape):
     for pos in _unravel(shape):
         off = _bsum((p if s != 1 else 0) * t for p, s, t in zip(pos, ashape, st))
         idx.append(a.idx[off])
-    return ndarray(a.buf, idx, shape, a._dt)
+    return ndarray(a.buf, idx, shape, a._dt, a.uw)
 
 
 def _as(a):
@@ -865,7 +900,20 @@ def array(obj, dtype=None, copy=True):
     return ndarray.fresh([_cast(obj, d)], (), d)
 
 
-asarray = array
+def asarray(obj, dtype=None):
+    if isinstance(obj, ndarray) and (dtype is None or _dt(dtype) == obj._dt):
+        return obj  # no copy: aliasing is observable
+    return array(obj, dtype=dtype)
+
+
+def flatnonzero(a):
+    return nonzero(_as(a).reshape(-1))[0]
+
+
+def argwhere(a):
+    nz = nonzero(_as(a))
+    n = len(nz[0].flat) if nz else 0
+    return ndarray.fresh([nz[d].flat[i] for i in range(n) for d in range(len(nz))], (n, len(nz)), "i8")
 
 
 def _shape(shape):
